@@ -8,6 +8,12 @@ import logging
 import threading
 from typing import Any
 
+def _sim_client() -> Any:
+    from . import simthreads
+
+    return simthreads.current_client()
+
+
 _sink_installed = False
 _lock_free_records: list[list[str]] = []  # records emitted outside any simulated client
 
@@ -43,7 +49,7 @@ class reentrant_handler:
 
 
 def current_log() -> list[list[str]]:
-    c = getattr(threading.current_thread(), "sim_client", None)
+    c = _sim_client()
     return c.log if c is not None else _lock_free_records  # the calling THREAD's own records
 
 
@@ -98,7 +104,7 @@ class _Sink(logging.Handler):
         except Exception as e:  # noqa: BLE001
             msg = f"{UNFORMATTABLE}{e!r}>"
         rec = [record.name, record.levelname, msg]
-        c = getattr(threading.current_thread(), "sim_client", None)
+        c = _sim_client()
         if c is not None:
             if c.root is not c:
                 # a thread the library started: the record is kept per thread (per-call accounting
